@@ -215,10 +215,8 @@ func (x *FnCtx) binop(op token.Token, a, b *Term, t types.Type, bt types.Type, s
 			x.tz[r.ID] = k + x.tzOf(a)
 			return r
 		}
-		if a.IsConst() && a.Val.Sign() > 0 {
-			// c << n with variable n: uninterpreted power of two with basic facts
-			return x.pow2Shift(a, b, w, signed, t)
-		}
+		// a << n with variable n: uninterpreted power of two with its values as facts
+		return x.pow2Shift(a, b, w, signed, t)
 	case token.SHR:
 		if k, ok := constShift(b); ok {
 			r := tb.Div(a, tb.IntB(pow2(k)))
